@@ -10,6 +10,7 @@ import (
 
 	"github.com/lavanet/lava/v5/testutil/common"
 	"github.com/lavanet/lava/v5/utils/sigs"
+	epochstoragetypes "github.com/lavanet/lava/v5/x/epochstorage/types"
 	pairingtypes "github.com/lavanet/lava/v5/x/pairing/types"
 
 	"verifmc/engine/bfs"
@@ -129,7 +130,10 @@ func build() *scen {
 	variant("wrong-epoch:B0-on-relay-of-next-epoch:4", rdef{badge: bB0, signer: 1, epochIx: 1, session: 11, cu: 4})
 	variant("wrong-lava-chain:badge-for-other-chain:4", rdef{badge: bWrongChain, signer: 1, session: 12, cu: 4})
 	variant("badge-signed-by-non-developer:4", rdef{badge: bForeignSigned, signer: 1, session: 13, cu: 4})
-	s.ops = append(s.ops, opdef{name: "+1block", kind: 1}, opdef{name: "next-epoch", kind: 2}, opdef{name: "to-B0-record-expiry", kind: 3})
+	s.ops = append(s.ops, opdef{name: "+1block", kind: 1}, opdef{name: "next-epoch", kind: 2}, opdef{name: "to-B0-record-expiry", kind: 3},
+		// governance lengthens the chain memory (takes effect at the next epoch): the usage record of a badge and the
+		// deadline for honouring it stay those of the parameters in force at the badge's epoch
+		opdef{name: "gov:EpochsToSave+2", kind: 4})
 	for _, o := range s.ops {
 		s.names = append(s.names, o.name)
 	}
@@ -194,6 +198,16 @@ func (s *scen) Apply(op int) bfs.Step {
 			p = w.NextBlock(chain.BlockDt)
 		case 2:
 			p = w.AdvanceToNextEpoch(chain.BlockDt)
+		case 4:
+			cur := w.Keepers.Epochstorage.EpochsToSaveRaw(w.Ctx)
+			if cur != s.save/s.eb {
+				return bfs.Step{Accepted: false, Obs: "already-changed"}
+			}
+			res := w.ParamChangeGov(epochstoragetypes.ModuleName, string(epochstoragetypes.KeyEpochsToSave), fmt.Sprintf("\"%d\"", cur+2))
+			if !res.OK() {
+				return bfs.Step{Accepted: false, Obs: "param-change-rejected"}
+			}
+			return bfs.Step{Accepted: true, Obs: "param-change"}
 		case 3:
 			if uint64(w.Ctx.BlockHeight()) >= s.e0+s.save {
 				return bfs.Step{Accepted: false, Obs: "already-expired"}
